@@ -92,6 +92,7 @@ pub fn run_case(ctx: &mut Ctx, case: &Value) {
         "meta" => solve_props::case_meta(ctx, case),
         "cli" => cli::case_cli(ctx, case),
         "cli-reject" => cli::case_reject(ctx, case),
+        "cli-twins" => cli::case_twins(ctx, case),
         _ => ctx.fail_corr(case, format!("unknown case op {:?}", op)),
     }
 }
